@@ -83,6 +83,15 @@ def Bitmap.insertRightOld (b : Bitmap) (newCells : List Cell) : E Bitmap :=
   | none => throw "IndexError"
   | some fl => pure { b with cells := b.cells ++ newCells, freqIndex := fi, nMax := fl }
 
+/-- the body of the loop of `align_grids` for one map -/
+def alignLeft (nMin : Int) (b : Bitmap) : E Bitmap :=
+  if b.nMin - nMin > 0 then b.insertLeft (rep (b.nMin - nMin) Cell.occupied) else pure b
+def alignRight (nMax : Int) (b : Bitmap) : E Bitmap :=
+  if nMax - b.nMax > 0 then b.insertRight (rep (nMax - b.nMax) Cell.occupied) else pure b
+def alignOne (nMin nMax : Int) (b : Bitmap) : E Bitmap := do
+  let b1 ← alignLeft nMin b
+  alignRight nMax b1
+
 /-- `align_grids` on the bitmaps (the OMS objects are otherwise untouched); `min()`/`max()` of an empty list: ValueError -/
 def alignGrids (l : List Bitmap) : E (List Bitmap) :=
   match l with
@@ -90,9 +99,7 @@ def alignGrids (l : List Bitmap) : E (List Bitmap) :=
   | b0 :: bs =>
     let nMin := bs.foldl (fun a b => if b.nMin < a then b.nMin else a) b0.nMin
     let nMax := bs.foldl (fun a b => if b.nMax > a then b.nMax else a) b0.nMax
-    l.mapM (fun b => do
-      let b1 ← if b.nMin - nMin > 0 then b.insertLeft (rep (b.nMin - nMin) Cell.occupied) else pure b
-      if nMax - b1.nMax > 0 then b1.insertRight (rep (nMax - b1.nMax) Cell.occupied) else pure b1)
+    mapE (alignOne nMin nMax) l
 
 /-- OMS: the spectrum map and the service bookkeeping -/
 structure Oms where
@@ -442,18 +449,19 @@ def reversedOms (l : List (List String)) (i : Nat) : Option Nat :=
   | none => none
   | some e => l.findIdx? (fun o => decide (e.head? = o.getLast? ∧ e.getLast? = o.head?))
 
+/-- the spectrum map of one OMS: `create_oms_bitmap` + `update_spectrum` -/
+def omsBitmap (fMin fMax : Int) (si : Option Band) (c : Chain) : E Bitmap := do
+  let cells ← createOmsBitmap (commonRange c.ampBands si) fMin fMax defaultGrid
+  Bitmap.create fMin fMax defaultGrid defaultGuardband (some cells)
+
 /-- `build_oms_list` on the chain abstraction: ids in construction order, spectrum map from the common band of the OMS
     over the network-wide range with the default guard band, alignment, reverse pairing -/
 def buildOmsList (chains : List Chain) (netBands : List Band) (si : Option Band) : E (List OmsRec) := do
   let (fMin, fMax) ← networkRange netBands
-  let bms ← chains.mapM (fun c => do
-    let cells ← createOmsBitmap (commonRange c.ampBands si) fMin fMax defaultGrid
-    Bitmap.create fMin fMax defaultGrid defaultGuardband (some cells))
+  let bms ← mapE (omsBitmap fMin fMax si) chains
   let aligned ← alignGrids bms
   let els := chains.map (·.els)
-  pure ((List.range chains.length).filterMap (fun i =>
-    match els[i]?, aligned[i]? with
-    | some e, some b => some { id := i, els := e, bm := b, reversed := reversedOms els i }
-    | _, _ => none))
+  pure (((chains.zip aligned).zipIdx).map (fun p =>
+    ({ id := p.2, els := p.1.1.els, bm := p.1.2, reversed := reversedOms els p.2 } : OmsRec)))
 
 end Gnpy.Slots
